@@ -93,6 +93,12 @@ int fcntl(int fd, int cmd, ...) {
 int ioctl(int fd, unsigned long req, ...) {
   va_list ap; va_start(ap, req); void* v = va_arg(ap, void*); va_end(ap);
   NEXT(int (*)(int, unsigned long, ...), "ioctl"); int r = fn(fd, req, v); REPORT(C_IOCTL, fd, r, req); return r; }
+int socket(int d, int t, int p) {
+  NEXT(int (*)(int, int, int), "socket"); int r = fn(d, t, p); REPORT(C_SOCKET, -1, r, 0); return r; }
+int socketpair(int d, int t, int p, int sv[2]) {
+  NEXT(int (*)(int, int, int, int[2]), "socketpair"); int r = fn(d, t, p, sv); REPORT(C_SOCKETPAIR, -1, r, 0); return r; }
+int pipe(int sv[2]) {
+  NEXT(int (*)(int[2]), "pipe"); int r = fn(sv); REPORT(C_PIPE, -1, r, 0); return r; }
 int epoll_ctl(int ep, int op, int fd, struct epoll_event* e) {
   NEXT(int (*)(int, int, int, struct epoll_event*), "epoll_ctl");
   long ev = e ? (long)e->events : 0; int r = fn(ep, op, fd, e); REPORT(C_EPOLL_CTL, fd, r, op * 0x100000000L + ev); return r; }
@@ -216,8 +222,15 @@ static void rec_hook(int code, int fd, long ret, int err, long extra) {
   else logev(t, 2, code, ret < 0 ? -1 : ret, eclass(ret, err) * 1000 + (ret < 0 ? err : 0));
 }
 
-#define BEGIN(code, fd, fl) do { if (impl_mode) { logev(tid, 1, code, fd, fl); inshim[tid] = 1; } errno = 0; } while (0)
-#define END(r) do { int e_ = errno; if (impl_mode) { inshim[tid] = 0; logev(tid, 4, (r) < 0 ? -1 : (long)(r), eclass((r), e_), e_); } errno = e_; } while (0)
+/* a fiber may resume on another kernel thread inside a shim; glibc declares __errno_location()
+   const, so errno must be accessed through calls the compiler cannot merge */
+static __attribute__((noinline)) int get_errno(void) { return errno; }
+static __attribute__((noinline)) void set_errno(int e) { errno = e; }
+
+#define BEGIN(code, fd, fl) do { if (impl_mode) { logev(tid, 1, code, fd, fl); inshim[tid] = 1; } set_errno(0); } while (0)
+#define END(r) do { int e_ = get_errno(); if (impl_mode) { inshim[tid] = 0; logev(tid, 4, (r) < 0 ? -1 : (long)(r), eclass((r), e_), e_); } set_errno(e_); } while (0)
+
+#define NEWFD(fd) do { if (impl_mode && (fd) >= 0) logev(tid, 5, (fd), 0, 0); } while (0)
 
 /* ---- time -------------------------------------------------------------- */
 static long now_ms(void) { struct timespec ts; clock_gettime(CLOCK_MONOTONIC, &ts); return ts.tv_sec * 1000L + ts.tv_nsec / 1000000; }
@@ -269,14 +282,14 @@ static long rx_call(int tid, int v, int slot, long n, int fl) {
   struct msghdr mh; memset(&mh, 0, sizeof mh); mh.msg_iov = iv; mh.msg_iovlen = 2;
   switch (v) {
     case 0: BEGIN(C_READ, fd, 0); r = io.read(fd, b, n); END(r); break;
-    case 1: BEGIN(C_RECV, fd, fl); r = io.recv(fd, b, n, fl); END(r); break;
+    case 1: BEGIN(C_RECV, fd, (fl & MSG_DONTWAIT) ? 1 : 0); r = io.recv(fd, b, n, fl); END(r); break;
     case 2: BEGIN(C_READV, fd, 0); r = io.readv(fd, iv, 2); END(r); break;
-    case 3: BEGIN(C_RECVFROM, fd, fl); r = io.recvfrom(fd, b, n, fl, NULL, NULL); END(r); break;
-    default: BEGIN(C_RECVMSG, fd, fl); r = io.recvmsg(fd, &mh, fl); END(r); break;
+    case 3: BEGIN(C_RECVFROM, fd, (fl & MSG_DONTWAIT) ? 1 : 0); r = io.recvfrom(fd, b, n, fl, NULL, NULL); END(r); break;
+    default: BEGIN(C_RECVMSG, fd, (fl & MSG_DONTWAIT) ? 1 : 0); r = io.recvmsg(fd, &mh, fl); END(r); break;
   }
-  int e = errno;
+  int e = get_errno();
   if (r > 0) account_rx(tid, slot, b, r);
-  errno = e;
+  set_errno(e);
   return r;
 }
 /* one send-type call through variant v (0 write 1 send 2 writev 3 sendto 4 sendmsg) */
@@ -288,14 +301,14 @@ static long tx_call(int tid, int v, int slot, long n, int fl) {
   struct msghdr mh; memset(&mh, 0, sizeof mh); mh.msg_iov = iv; mh.msg_iovlen = 2;
   switch (v) {
     case 0: BEGIN(C_WRITE, fd, 0); r = io.write(fd, b, n); END(r); break;
-    case 1: BEGIN(C_SEND, fd, fl); r = io.send(fd, b, n, fl); END(r); break;
+    case 1: BEGIN(C_SEND, fd, (fl & MSG_DONTWAIT) ? 1 : 0); r = io.send(fd, b, n, fl); END(r); break;
     case 2: BEGIN(C_WRITEV, fd, 0); r = io.writev(fd, iv, 2); END(r); break;
-    case 3: BEGIN(C_SENDTO, fd, fl); r = io.sendto(fd, b, n, fl, NULL, 0); END(r); break;
-    default: BEGIN(C_SENDMSG, fd, fl); r = io.sendmsg(fd, &mh, fl); END(r); break;
+    case 3: BEGIN(C_SENDTO, fd, (fl & MSG_DONTWAIT) ? 1 : 0); r = io.sendto(fd, b, n, fl, NULL, 0); END(r); break;
+    default: BEGIN(C_SENDMSG, fd, (fl & MSG_DONTWAIT) ? 1 : 0); r = io.sendmsg(fd, &mh, fl); END(r); break;
   }
-  int e = errno;
+  int e = get_errno();
   if (r > 0) S->tx[tid][slot_ix(slot)] += r;
-  errno = e;
+  set_errno(e);
   return r;
 }
 
@@ -305,7 +318,7 @@ static void run_ops(int tid) {
   for (int i = 0; i < S->nops[tid]; i++) {
     op_t* o = &S->ops[tid][i]; res_t* R = &S->res[tid][i];
     long r = 0; int fd = slot_fd(tid, o->slot); long calls = 1;
-    errno = 0;
+    set_errno(0);
     switch (o->op) {
       case O_READ: r = rx_call(tid, 0, o->slot, o->a, 0); break;
       case O_RECV: r = rx_call(tid, 1, o->slot, o->a, mkflags(o->b)); break;
@@ -342,13 +355,13 @@ static void run_ops(int tid) {
         break;
       }
       case O_FCNTL_NB: BEGIN(C_FCNTL, fd, 1); r = io.fcntl(fd, F_SETFL, O_NONBLOCK); END(r); break;
-      case O_SETFL: BEGIN(C_FCNTL, fd, 2 + (o->a & O_NONBLOCK ? 1 : 0)); r = io.fcntl(fd, F_SETFL, o->a); END(r); break;
+      case O_SETFL: BEGIN(C_FCNTL, fd, o->a == O_NONBLOCK ? 1 : 2 + (o->a & O_NONBLOCK ? 1 : 0)); r = io.fcntl(fd, F_SETFL, o->a); END(r); break;
       case O_GETFL: BEGIN(C_FCNTL, fd, 0); r = io.fcntl(fd, F_GETFL, 0); END(r); if (r >= 0) r = (r & O_NONBLOCK) ? 1 : 0; break;
       case O_IDIOM: {  /* fl = fcntl(F_GETFL); fcntl(F_SETFL, fl | O_NONBLOCK) or fl & ~O_NONBLOCK */
         BEGIN(C_FCNTL, fd, 0); long fl = io.fcntl(fd, F_GETFL, 0); END(fl);
         if (fl < 0) { r = fl; break; }
         fl = o->a ? (fl | O_NONBLOCK) : (fl & ~O_NONBLOCK);
-        BEGIN(C_FCNTL, fd, 2 + (o->a ? 1 : 0)); r = io.fcntl(fd, F_SETFL, fl); END(r); calls = 2; break;
+        BEGIN(C_FCNTL, fd, fl == O_NONBLOCK ? 1 : 2 + (o->a ? 1 : 0)); r = io.fcntl(fd, F_SETFL, fl); END(r); calls = 2; break;
       }
       case O_FIONBIO: { int on = (int)o->a; BEGIN(C_IOCTL, fd, on); r = io.ioctl(fd, FIONBIO, &on); END(r); break; }
       case O_CLOSE:
@@ -357,14 +370,15 @@ static void run_ops(int tid) {
       case O_SHUTWR: r = shutdown(fd, SHUT_WR); break;
       case O_ACCEPT: {
         BEGIN(C_ACCEPT, fd, 0); r = io.accept(fd, NULL, NULL); END(r);
-        int e = errno; if (r >= 0) { dynfd[tid] = (int)r; r = 1; } errno = e; break;
+        int e = get_errno(); NEWFD((int)r); if (r >= 0) { dynfd[tid] = (int)r; r = 1; } set_errno(e); break;
       }
       case O_CONNECT: {
         int e, obj = o->slot / 2;
         BEGIN(C_SOCKET, -1, 0); int s = io.socket(AF_INET, SOCK_STREAM, 0); END(s);
         if (s < 0) { r = -1; break; }
+        NEWFD(s);
         BEGIN(C_CONNECT, s, 0); r = io.connect(s, (struct sockaddr*)&laddr[obj], sizeof laddr[obj]); END(r);
-        e = errno; dynfd[tid] = s; errno = e; calls = 2; break;
+        e = get_errno(); dynfd[tid] = s; set_errno(e); calls = 2; break;
       }
       case O_SLEEP: sleep_ms(o->a); break;
       case O_BARRIER: {
@@ -374,7 +388,7 @@ static void run_ops(int tid) {
       }
       default: r = -2; break;
     }
-    R->en = errno; R->ret = r; R->ec = eclass(r, R->en); R->calls = calls;
+    R->en = get_errno(); R->ret = r; R->ec = eclass(r, R->en); R->calls = calls;
     __atomic_store_n(&R->done, 1, __ATOMIC_SEQ_CST);
   }
   __atomic_store_n(&S->finished[tid], 1, __ATOMIC_SEQ_CST);
@@ -395,12 +409,14 @@ static int setup(void) {
     switch (S->kind[k]) {
       case 0: case 4:
         BEGIN(C_SOCKETPAIR, -1, 0); r = io.socketpair(AF_UNIX, SOCK_STREAM, 0, sv); END(r);
+        if (!r) { NEWFD(sv[0]); NEWFD(sv[1]); }
         if (!r && S->kind[k] == 4) { int sz = 4096; setsockopt(sv[0], SOL_SOCKET, SO_SNDBUF, &sz, sizeof sz); setsockopt(sv[1], SOL_SOCKET, SO_SNDBUF, &sz, sizeof sz); }
         break;
-      case 1: BEGIN(C_PIPE, -1, 0); r = io.pipe(sv); END(r); break;
+      case 1: BEGIN(C_PIPE, -1, 0); r = io.pipe(sv); END(r); if (!r) { NEWFD(sv[0]); NEWFD(sv[1]); } break;
       case 2: case 3: {
         BEGIN(C_SOCKET, -1, 0); int ls = io.socket(AF_INET, SOCK_STREAM, 0); END(ls);
         if (ls < 0) return -1;
+        NEWFD(ls);
         struct sockaddr_in a; memset(&a, 0, sizeof a); a.sin_family = AF_INET; a.sin_addr.s_addr = htonl(INADDR_LOOPBACK);
         if (S->kind[k] == 2) setbuf_sz(ls, 8192);
         if (bind(ls, (struct sockaddr*)&a, sizeof a) || listen(ls, 16)) return -1;
@@ -408,11 +424,13 @@ static int setup(void) {
         if (S->kind[k] == 3) { sv[0] = ls; break; }
         BEGIN(C_SOCKET, -1, 0); int c = io.socket(AF_INET, SOCK_STREAM, 0); END(c);
         if (c < 0) return -1;
+        NEWFD(c);
         setbuf_sz(c, 8192);
         BEGIN(C_CONNECT, c, 0); r = io.connect(c, (struct sockaddr*)&a, sizeof a); END(r);
         if (r) return -1;
         BEGIN(C_ACCEPT, ls, 0); int s = io.accept(ls, NULL, NULL); END(s);
         if (s < 0) return -1;
+        NEWFD(s);
         BEGIN(C_CLOSE, ls, 0); io.close(ls); END(0);
         sv[0] = s; sv[1] = c; r = 0; break;
       }
